@@ -13,6 +13,7 @@ mod c14;
 mod c14m;
 mod c15;
 mod c16;
+mod c18;
 mod tlslab;
 mod redir;
 mod common;
@@ -99,6 +100,7 @@ const CHECKS: &[(&str, CheckFn)] = &[
     ("C14", c14m::c14),
     ("C15", c15::c15),
     ("C16", c16::c16),
+    ("C18", c18::c18),
     ("C19", wirechecks::c19),
 ];
 
@@ -118,4 +120,5 @@ const REPLAYERS: &[(&str, ReplayFn)] = &[
     ("c14", c14m::replay),
     ("c15", c15::replay),
     ("c16", c16::replay),
+    ("c18", c18::replay),
 ];
